@@ -18,11 +18,13 @@ SPEC = dict(
     rule="case = (database, query, options) evaluated through SearchUniversal, Search, SearchWithPipelineOptions, the cached "
          "and monitored wrappers, plus `wtf [search]` runs; every returned list passes through the result-invariant monitor "
          "(len<=limit in force, entries are elements of the searched slice by address, no index twice, scores finite >=0, "
-         "non-increasing). Non-trivial = distinct (db, query, options) with a non-empty answer, keyed with the answering path.",
+         "non-increasing). Non-trivial = distinct (db, query, options) with a non-empty answer, keyed with the answering path. "
+         "One database in eight has a word table that lacks a third of its words (requests made of unknown words only reach the semantic stage with nothing to embed). "
+         "searchinv-cli also runs `wtf pipeline -v` with the platform flags on databases whose command strings are all different: at most --limit entries, none twice, relevance never increasing.",
     floors=T({"lexical": 200, "nlp": 200, "fuzzy": 100, "cached": 500, "pipeline": 100, "cli-recovery": 5, "cli-fuzzy": 5, "recovery-answers": 100, "cached-limit-sequence-steps": 500,
-              "distinct_nontrivial": 1000, "databases-with-embeddings": 6, "databases-with-embeddings-non-finite": 2, "databases-with-embeddings-huge": 2, "cached-look-alike-pair-steps": 10000, "requests-with-a-subnormal-boost-on-a-query-word": 300},
+              "distinct_nontrivial": 1000, "databases-with-embeddings": 6, "databases-with-embeddings-partial": 4, "cli-pipeline-runs-with-results": 30, "databases-with-embeddings-non-finite": 2, "databases-with-embeddings-huge": 2, "cached-look-alike-pair-steps": 10000, "requests-with-a-subnormal-boost-on-a-query-word": 300},
              {"lexical": 2000, "nlp": 2000, "fuzzy": 1000, "cached": 5000, "pipeline": 1000, "cli-recovery": 50, "cli-fuzzy": 50, "recovery-answers": 1000, "cached-limit-sequence-steps": 5000,
-              "distinct_nontrivial": 10000, "databases-with-embeddings": 200, "databases-with-embeddings-non-finite": 50, "databases-with-embeddings-huge": 50, "cached-look-alike-pair-steps": 300000, "requests-with-a-subnormal-boost-on-a-query-word": 10000}),
+              "distinct_nontrivial": 10000, "databases-with-embeddings": 200, "databases-with-embeddings-partial": 100, "cli-pipeline-runs-with-results": 800, "databases-with-embeddings-non-finite": 50, "databases-with-embeddings-huge": 50, "cached-look-alike-pair-steps": 300000, "requests-with-a-subnormal-boost-on-a-query-word": 10000}),
     assumptions=[
         "context / pipeline boosts are kept <= 1e6 so float overflow to +Inf is not manufactured by the generator",
         "for Limit<=0 the bound asserted is max(10, default): a re-tuned default is not flagged, an unbounded answer is",
